@@ -723,7 +723,7 @@ def judge(case, col):
             site = 'missing' if miss else ('extra' if extra else 'value')
             feats = list(mfeat)
             for k, _ in (q.using or []):
-                pre, _, rest = k.rpartition('.')
+                pre, _, rest = k.partition('.') if k.split('.')[0] == own_name(mi) else k.rpartition('.')
                 if pre and rest.lower() in miss and pre == own_name(mi):
                     feats.append('key:prefix-upper' if pre != pre.lower() else 'key:prefix-lower')
                 if not pre and k.lower() in miss:
@@ -1075,7 +1075,9 @@ def cases(draw):
         for n in range(pick([1, 1, 2, 3, 4])):
             name = pick([f'opt{n}', f'Opt{n}', f'OPT{n}', f'opt{n}']) if not chance(1, 5) else \
                 pick(['partition_size', 'partition_size', 'PARTITION_SIZE'])
-            if any(k.lower().split('.')[-1] == name.lower() for k, _ in using):
+            if name.lower() != 'partition_size' and chance(1, 5):
+                name = f'sec{n}.' + name          # an option whose own name contains a dot (engine.temperature)
+            if any(k.lower().split('.')[-1] == name.lower().split('.')[-1] for k, _ in using):
                 continue
             if chance(2, 5):
                 of = pick(model_idx * 3 + data_idx)
